@@ -40,7 +40,7 @@ TBLPRS = ['<w:tblW w:w="0" w:type="auto"/>', '<w:tblStyle w:val="TableGrid"/><w:
 
 DEFAULT_PROFILE = {
     "blocks": (1, 7), "table": 0.18, "nested_table": 0.15, "heading": 0.12, "caps_heading": 0.05, "empty_para": 0.06,
-    "runs": (1, 5), "split_identical": 0.25, "tab": 0.12, "br": 0.08, "opaque": 0.06, "ins": 0.18, "del": 0.15,
+    "runs": (1, 5), "split_identical": 0.25, "tab": 0.12, "br": 0.08, "br_typed": 0.2, "opaque": 0.06, "ins": 0.18, "del": 0.15,
     "subst": 0.10, "comment": 0.15, "point_comment": 0.03, "reply": 0.4, "bookmark": 0.06, "proof": 0.05,
     "hyperlink": 0.05, "field": 0.04, "header": 0.25, "footer": 0.2, "fmt": 0.45, "empty_run": 0.04,
     "span": 0.12, "vmerge": 0.08, "overlap_comment": 0.06, "para_mark_rev": 0.0, "sect_break": 0.04, "comment_in_ins": 0.3, "multi_author": True, "literal_tab": 0.02,
@@ -134,6 +134,12 @@ class Gen:
             else:
                 a, b = text.split(" ", 1)
                 ch = [{"k": tk, "s": a}, {"k": r.choice(["br", "br", "cr"])}, {"k": tk, "s": b}]
+            if r.random() < self.p.get("br_typed", 0.0):
+                # page / column breaks: `w:br` with a type, in the middle of a run
+                for a in ch:
+                    if a["k"] == "br" and r.random() < 0.7:
+                        a["type"] = r.choice(["page", "column", "textWrapping"])
+                        self.features.add("typed_br")
             self.features.add("br")
         elif not plain and r.random() < self.p["literal_tab"] and " " in text:
             ch = [{"k": tk, "s": text.replace(" ", "\t", 1)}]
